@@ -470,15 +470,15 @@ func resolveJBIG2Globals(r Getter, path *CycleCheck, f *FilterJBIG2) error {
 		return nil
 	}
 
-	// detect cycles in chains of /JBIG2Globals references
+	// detect cycles in chains of /JBIG2Globals references, and stop chains
+	// which are too long: every link is one more level of recursion
+	// (ReadAll -> DecodeStream -> GetFilters -> resolveJBIG2Globals)
 	if ref, isRef := f.GlobalsRef.(Reference); isRef {
-		if path.Seen(ref) {
-			return &MalformedFileError{
-				Err: ErrCycle,
-				Loc: []string{"JBIG2Globals " + ref.String()},
-			}
+		next, err := path.step(ref)
+		if err != nil {
+			return Wrap(err, "JBIG2Globals "+ref.String())
 		}
-		path = &CycleCheck{Ref: ref, Parent: path}
+		path = next
 	}
 
 	// resolve the reference to get the stream
